@@ -47,7 +47,7 @@ func (r *Reflog) load(rootGoitPath string, head *Head, refs *Refs) error {
 	}
 	defer f.Close()
 
-	scanner := fsutil.NewLineScanner(f)
+	scanner := fsutil.NewExactLineScanner(f)
 	for scanner.Scan() {
 		record := &LogRecord{
 			references: make([]string, 0),
